@@ -68,6 +68,14 @@ Theorem C17_throttle_identity : forall h ss ops c s,
   stream_of c (snd (run h ss ops)) ++ winner (fst (run h ss ops)) c = sdata s.
 Proof. exact throttle_identity_gen. Qed.
 
+(* bytes the connection already holds when throttle runs (prefetched by matchers) come first and
+   complete: Reads are served from that buffer until it is empty (never more than it held), and
+   only then reach the throttled conn, whose stream C17_throttle_identity describes *)
+Theorem C17_prefetched_first : forall lens b, 0 <= b -> Forall (fun l => 0 <= l) lens ->
+  0 <= from_buffer (cx_plan b lens) <= b /\
+  (forall pre l post, cx_plan b lens = pre ++ inr l :: post -> from_buffer pre = b /\ from_buffer post = 0).
+Proof. exact cx_plan_buffer. Qed.
+
 (* every inner Read asks for at most batch bytes, and batch is within both bursts *)
 Theorem C17_read_within_batch : forall cfg h ss ops c t b bs er,
   0 < rq cfg -> 0 < trq cfg -> provision cfg = Some h -> Forall op_ok ops ->
@@ -172,6 +180,7 @@ Print Assumptions C17_throttle_bound_every_schedule.
 Print Assumptions C17_throttle_bound_total_every_schedule.
 Print Assumptions C17_first_read_after_latency.
 Print Assumptions C17_throttle_identity.
+Print Assumptions C17_prefetched_first.
 Print Assumptions C17_read_within_batch.
 Print Assumptions C17_provision_burst_positive.
 Print Assumptions C17_slack_is_needed.
